@@ -99,6 +99,7 @@ impl Parser {
                     break;
                 }
             } else if self.match_token(&TokenKind::As) {
+                self.chain_link(&mut links)?;
                 let target = self.parse_type_annotation()?;
                 let span = expr.span.merge(self.previous().span);
                 expr = Expr::new(
